@@ -268,3 +268,54 @@ func zxC07Flatten() {
 	vrtAssert(n == len(got), "no timestamp is emitted twice")
 	vrtReach("C07.F")
 }
+
+// C04.Q — end to end on the query operators: a source hands out frozen rows (what a query reads
+// from the row store); real Flatten(Group(src, {AsOf, Until, Resolution, By})) pipelines with a
+// solver-chosen window — including an until before the newest stored period and a coarser
+// resolution — run to completion without a single store into the source rows.
+//
+//zx:harness prop=C04 id=C04.Q tier=quick shard=hasUntil:2,hasAsOf:2,group:3,n0:3 N=3 thorough.N=4 thorough.shard=hasUntil:2,hasAsOf:2,group:3,n0:4,n1:4
+func zxC04QueryReadOnly() {
+	N := vrtParam("N", 3)
+	res := time.Second
+	top := vrtGridTime("top", res)
+	src := &zxRowSrc{fields: Fields{zxSumA}, resolution: res, asOf: top.Add(-time.Duration(N+2) * res), until: top}
+	for r := 0; r < 2; r++ {
+		n := vrtShape("n"+zxItoa(r), N) + 1
+		vals := make([]float64, n)
+		for i := range vals {
+			vals[i] = float64(10*r + i + 1)
+		}
+		seq := zxSeq(zxSumA.Expr, top.Add(-time.Duration(vrtShape("k"+zxItoa(r), 2))*res), vals...)
+		// accumulator bytes symbolic (any stored state), header as built
+		sym := vrtBytes("row"+zxItoa(r), len(seq)-8)
+		copy(seq[8:], sym)
+		src.keys = append(src.keys, bytemap.New(map[string]interface{}{"k": r % 2, "j": r}))
+		src.vals = append(src.vals, Vals{seq})
+	}
+	opts := GroupOpts{}
+	if vrtShape("hasUntil", 2) == 1 {
+		opts.Until = top.Add(-time.Duration(vrtShape("untilK", N+2)) * res)
+	}
+	if vrtShape("hasAsOf", 2) == 1 {
+		opts.AsOf = top.Add(-time.Duration(vrtShape("asOfK", N+3)+1) * res)
+	}
+	switch vrtShape("group", 3) {
+	case 1:
+		opts.By = []GroupBy{NewGroupBy("k", goexpr.Param("k"))}
+	case 2:
+		opts.By = []GroupBy{NewGroupBy("k", goexpr.Param("k"))}
+		opts.Resolution = 2 * res
+	}
+	for i := range src.vals {
+		vrtFreeze("row"+zxItoa(i), src.vals[i])
+	}
+	rows := 0
+	_, err := Flatten(Group(src, opts)).Iterate(context.Background(), FieldsIgnored, func(row *FlatRow) (bool, error) {
+		rows++
+		return true, nil
+	})
+	vrtUnfreeze()
+	vrtAssert(err == nil, "the query runs")
+	vrtReach("C04.Q")
+}
